@@ -131,10 +131,36 @@ Proof. exact @window_boundary_rule. Qed.
 Theorem C18_when_rule : forall A B mapper s now k (e : ev A), (forall z, e <> Err z) ->
   exists c f,
     x_step (x_window_when (A:=A) (B:=B) mapper) s now (ISrc (S k) e)
-    = (fst (fst (ww_arm (A:=A) (B:=B) mapper (WwSt (ww_next s) (S (ww_next s)) (ww_calls s) (ww_closing s)))),
+    = (fst (fst (ww_arm (A:=A) (B:=B) true mapper (WwSt (ww_next s) (S (ww_next s)) (ww_calls s) (ww_closing s)))),
        [CWin (ww_cur s) Done; CHand (ww_next s) 0; CUnsub (S k)] ++ c, f)
-    /\ f = snd (ww_arm (A:=A) (B:=B) mapper (WwSt (ww_next s) (S (ww_next s)) (ww_calls s) (ww_closing s))).
+    /\ f = snd (ww_arm (A:=A) (B:=B) true mapper (WwSt (ww_next s) (S (ww_next s)) (ww_calls s) (ww_closing s))).
 Proof. exact @window_when_rule. Qed.
+(* ... when that call returns, the new closing observable is subscribed behind `if d.is_disposed: return`
+   (command CSubLive of Ops/MultiWin.v: as CSub while the runner has not released, nothing once it has --
+   the completion of the old window may have dropped the last reference when the outer subscription was
+   already gone; the mapper is not called then) *)
+Theorem C18_when_rule_ok : forall A B mapper s now k (e : ev A) u, (forall z', e <> Err z') ->
+  mapper (ww_calls s) = Ok u ->
+  snd (fst (x_step (x_window_when (A:=A) (B:=B) mapper) s now (ISrc (S k) e)))
+  = [CWin (ww_cur s) Done; CHand (ww_next s) 0; CUnsub (S k); CSubLive (S (ww_calls s))]
+  /\ snd (x_step (x_window_when (A:=A) (B:=B) mapper) s now (ISrc (S k) e)) = Cont.
+Proof. exact @window_when_rule_ok. Qed.
+(* ... and when that next call of the mapper raises: the window just handed gets the error before the outer
+   (operators/_window.py create_window_on_completed: window.on_error(exception); observer.on_error(exception));
+   inside subscribe() the same happens to window 0, after it was handed and the source subscribed *)
+Theorem C18_when_rule_raises : forall A B mapper s now k (e : ev A) z, (forall z', e <> Err z') ->
+  mapper (ww_calls s) = Raise z ->
+  snd (fst (x_step (x_window_when (A:=A) (B:=B) mapper) s now (ISrc (S k) e)))
+  = [CWin (ww_cur s) Done; CHand (ww_next s) 0; CUnsub (S k); CWin (ww_next s) (Err z)]
+  /\ snd (x_step (x_window_when (A:=A) (B:=B) mapper) s now (ISrc (S k) e)) = Fail z.
+Proof. exact @window_when_rule_raises. Qed.
+Theorem C18_when_start : forall A B (mapper : nat -> res unit),
+  snd (fst (x_start (x_window_when (A:=A) (B:=B) mapper)))
+  = [CHand 0%nat 0; CSub 0%nat]
+    ++ match mapper 0%nat with Ok _ => [CSub 1%nat] | Raise z => [CWin 0%nat (Err z)] end
+  /\ snd (x_start (x_window_when (A:=A) (B:=B) mapper))
+     = match mapper 0%nat with Ok _ => Cont | Raise z => Fail z end.
+Proof. exact @window_when_start. Qed.
 Theorem C18_toggle_open_rule : forall A B mapper s now (v : A), mapper (wg_calls s) = Ok tt ->
   x_step (x_window_toggle (A:=A) (B:=B) mapper) s now (ISrc 1%nat (Next v))
   = (WgSt (wg_open s ++ [(wg_next s, (2 + wg_calls s)%nat)]) (S (wg_next s)) (S (wg_calls s)),
@@ -151,6 +177,9 @@ Theorem C18_toggle_error_fanout : forall A B mapper s now k z,
 Proof. exact @window_toggle_error_fanout. Qed.
 Print Assumptions C18_boundary_rule.
 Print Assumptions C18_when_rule.
+Print Assumptions C18_when_rule_ok.
+Print Assumptions C18_when_rule_raises.
+Print Assumptions C18_when_start.
 Print Assumptions C18_toggle_open_rule.
 Print Assumptions C18_toggle_close_rule.
 Print Assumptions C18_toggle_error_fanout.
@@ -464,12 +493,29 @@ Proof. vm_compute. auto. Qed.
    state is the index g of the current window: only the closing observable of the CURRENT window is listened
    to; its first notification (element or completion) completes window g, hands window g+1, disposes that
    subscription and subscribes a NEW closing observable made by the (g+1)-th call of the mapper; errors of
-   the source / the current closing observable go to window g and the outer; a raising mapper ends the outer
-   while the window just handed stays open (fed by the source until it terminates) *)
+   the source / the current closing observable go to window g and the outer; a raising call of the mapper
+   sends the error to the CURRENT window (window 0 at the first call, inside subscribe(); the window just
+   handed at a later call), then to the outer, and releases the source: nothing later is observed
+   ([ww_out]: the start, followed by the walk only if the first call did not raise) *)
 Theorem C18_window_when_run : forall A B (mapper : nat -> res unit) (ins : list (Z * nat * ev A)),
-  fst (run all_imm (x_window_when (A:=A) (B:=B) mapper) (wports ins))
-  = ww_start mapper ++ ww_walk mapper (match mapper 0%nat with Ok _ => true | Raise _ => false end) 0 1 ins.
+  fst (run all_imm (x_window_when (A:=A) (B:=B) mapper) (wports ins)) = ww_out mapper ins.
 Proof. exact @window_when_run. Qed.
+(* the two raising cases read off the walk *)
+Theorem C18_window_when_first_call_raises : forall A B (mapper : nat -> res unit) (ins : list (Z * nat * ev A)) z,
+  mapper 0%nat = Raise z ->
+  fst (run all_imm (x_window_when (A:=A) (B:=B) mapper) (wports ins))
+  = [(0%nat, OHand 0%nat 0); (0%nat, OSub 0%nat); (0%nat, OWin 0%nat (Err z)); (0%nat, OEmit (Err z));
+     (0%nat, OUnsub 0%nat)].
+Proof. exact @window_when_first_call_raises. Qed.
+Theorem C18_window_when_raise_stops : forall A B (mapper : nat -> res unit) g pos t (e : ev A)
+  (rest : list (Z * nat * ev A)) z,
+  (forall z', e <> Err z') -> mapper (S g) = Raise z ->
+  ww_walk (B:=B) mapper g pos ((t, S g, e) :: rest)
+  = [(pos, OWin g Done); (pos, OHand (S g) 0); (pos, OUnsub (S g));
+     (pos, OWin (S g) (Err z)); (pos, OEmit (Err z)); (pos, OUnsub 0%nat)].
+Proof. exact @window_when_raise_stops. Qed.
+Print Assumptions C18_window_when_first_call_raises.
+Print Assumptions C18_window_when_raise_stops.
 Theorem C18_buffer_when_run : forall A (mapper : nat -> res unit) (ins : list (Z * nat * ev A)),
   fst (run all_imm (x_buffer_when (A:=A) mapper) (wports ins)) = bw_out mapper ins.
 Proof. exact @buffer_when_run. Qed.
@@ -477,14 +523,15 @@ Print Assumptions C18_window_when_run.
 Print Assumptions C18_buffer_when_run.
 (* windows partition the source: the elements delivered on windows are, in trace order, a prefix of the
    source's elements (each element in ONE window, nothing invented or reordered) and the window index never
-   decreases; nothing is lost while nothing fails and the source has not completed *)
+   decreases; nothing is lost while nothing fails (no error notification, no raising mapper call: such a
+   call ends everything) and the source has not completed *)
 Theorem C18_window_when_partition : forall A B (mapper : nat -> res unit) (ins : list (Z * nat * ev A)),
   let tr := fst (run all_imm (x_window_when (A:=A) (B:=B) mapper) (wports ins)) in
   (exists rest, src_nexts ins = map snd (routed tr) ++ rest)
   /\ StronglySorted (fun p q : nat * A => (fst p <= fst q)%nat) (routed tr).
 Proof. exact @window_when_partition. Qed.
 Theorem C18_window_when_no_loss : forall A B (mapper : nat -> res unit) (ins : list (Z * nat * ev A)),
-  no_err ins -> src_open ins ->
+  (forall j, exists u, mapper j = Ok u) -> no_err ins -> src_open ins ->
   map snd (routed (fst (run all_imm (x_window_when (A:=A) (B:=B) mapper) (wports ins)))) = src_nexts ins.
 Proof. exact @window_when_no_loss. Qed.
 (* buffers partition the source: with a mapper that does not raise and no error, the buffers emitted up to
@@ -503,9 +550,20 @@ Example C18_witness_when :
   let ins := [(0, 0%nat, Next 1); (0, 2%nat, Next 5); (0, 1%nat, Done); (0, 0%nat, Next 2); (0, 1%nat, Next 7);
               (0, 2%nat, Next 0); (0, 0%nat, Next 3); (0, 3%nat, Next 0); (0, 0%nat, Next 4); (0, 0%nat, Done);
               (0, 0%nat, Next 4)] in
-  routed (fst (run all_imm (x_window_when (B:=unit) mp) (wports ins))) = [(0%nat, 1); (1%nat, 2); (2%nat, 3); (3%nat, 4)]
+  routed (fst (run all_imm (x_window_when (B:=unit) mp) (wports ins))) = [(0%nat, 1); (1%nat, 2); (2%nat, 3)]
+  /\ wevents 3 (fst (run all_imm (x_window_when (B:=unit) mp) (wports ins))) = [Err 9]
+  /\ emitted (fst (run all_imm (x_window_when (B:=unit) mp) (wports ins))) = [Err 9]
   /\ emitted (fst (run all_imm (x_buffer_when mp) (wports ins))) = [Next [1]; Next [2]; Next [3]; Err 9].
 Proof. vm_compute. auto. Qed.
+(* the guard `if d.is_disposed: return`: the subscriber disposed the outer subscription and kept window 0;
+   when its closing observable fires, window 0 completes, which drops the last reference: everything is
+   released, no further closing observable is subscribed (no OSub 2), window 1 reaches nobody *)
+Example C18_witness_when_guard :
+  fst (run all_imm (x_window_when (A:=Z) (B:=unit) (fun _ => Ok tt))
+         [(0, IDispose); (5, ISrc 0%nat (Next 7)); (10, ISrc 1%nat (Next 0)); (15, ISrc 0%nat (Next 8))])
+  = [(0%nat, OHand 0%nat 0); (0%nat, OSub 0%nat); (0%nat, OSub 1%nat); (2%nat, OWin 0%nat (Next 7));
+     (3%nat, OWin 0%nat Done); (3%nat, OUnsub 0%nat); (3%nat, OUnsub 1%nat)].
+Proof. vm_compute. reflexivity. Qed.
 
 (* ---- toggle (window_toggle / buffer_toggle), ALL interleavings of the ports (Ops/WindowToggleRun.v,
    Ops/BufferToggleRun.v) ---- *)
